@@ -118,7 +118,7 @@ Step(o) ==
      /\ viol' = viol \cup {<<m, Key(m, g, ev)>> : m \in Failing(g, ev)}
      /\ hist' = Append(hist, o @@ [exp |-> ev.res])
 
-Next == \E o \in Ops : Step(o)
+Next == Len(hist) < Depth /\ \E o \in Ops : Step(o)
 Bound == Len(hist) <= Depth
 EmitReplay == (EmitEvery > 0 /\ RandomElement(1..EmitEvery) = 1) => PrintT(<<"REPLAY", ToJson(hist')>>)
 
